@@ -58,7 +58,7 @@ func (e *rpcEnv) runWs(ev *RpcEv) {
 	fmt.Fprintf(conn, "GET %s HTTP/1.1\r\nHost: verif.test\r\nUpgrade: websocket\r\nConnection: Upgrade\r\nSec-WebSocket-Key: dGhlIHNhbXBsZSBub25jZQ==\r\nSec-WebSocket-Version: 13\r\n\r\n", path)
 	br := bufio.NewReader(conn)
 	res, err := http.ReadResponse(br, nil)
-	co := ClientObs{Msgs: []RecvObs{}, Hdr: MD{}, Trl: MD{}, Clean: true, Status: StatusObs{Shape: []string{}}}
+	co := ClientObs{Msgs: []RecvObs{}, Hdr: MD{}, Trl: MD{}, Clean: true, Status: StatusObs{Shape: []string{}}, Forged: []string{}}
 	if err != nil {
 		co.Note = "no HTTP response: " + err.Error()
 		co.Clean = false
